@@ -496,6 +496,16 @@ fn run_decomp(s: &Script, src_note: &str) -> Option<String> {
     for blocks in [false, true] {
         let file = match decompile(&ecl, blocks) { Ok(Some(f)) => f, Ok(None) => { println!("ORACLE-FAIL\tdecompile error (blocks={})\t{}", blocks, src_note); continue; }, Err(_) => continue };
         let text = match fmt_ast(&file) { Some(t) => t, None => { println!("ORACLE-FAIL\tcannot format the decompiled script\t{}", src_note); continue; } };
+        // two label statements with one name: the decompiled script cannot mean what the binary does
+        if !blocks {
+            let mut names: Vec<String> = vec![];
+            if let Some(body) = first_body(&file) { for st in &body.0 { if let ast::StmtKind::Label(id) = &st.kind { names.push(id.value.as_str().to_string()); } } }
+            let mut sorted = names.clone(); sorted.sort();
+            if let Some(w) = sorted.windows(2).find(|w| w[0] == w[1]) {
+                println!("ORACLE-FAIL\tduplicate label name {} in decompiled script\t{}\t{}", w[0], src_note, oneline(&text));
+                break;
+            }
+        }
         match compile_text(&text) {
             Ok(Some(re)) => {
                 let a: Vec<(i32, u16, &[u8])> = instrs.iter().map(|i| (i.time, i.opcode, &i.args_blob[..])).collect();
